@@ -101,7 +101,7 @@ func longIDs(n int, h, v int64) []ref.Vox {
 func longIDListPhase(prop, tier string) engine.Phase {
 	lens := longLensFor(tier)
 	rule := map[string]string{
-		"C03": "lists of 129 .. 65 537 distinct IDs (thorough: to 262 145) at zoom 20/20, the last one repeated at the front: zoom change to the same zooms returns exactly the set of the list; to 19/19 exactly the set of parents (model); non-trivial = distinct lengths",
+		"C03": "lists of 129 .. 65 537 distinct IDs (thorough: to 262 145) at zoom 20/20, the last one repeated at the front: zoom change to the same zooms returns exactly the set of the list; to 19/19 exactly the set of parents (model); one voxel raised to its 16 384 descendants at 26/22; every result is judged when returned and again after the later calls (a result the caller keeps must not be changed by a later call); non-trivial = distinct lengths",
 		"C05": "lists A of 129 .. 65 537 pairwise disjoint IDs (thorough: to 262 145) at zoom 20/20 against B = {a descendant of the LAST entry of A} (true) and B = {a voxel outside A} (false), both argument orders, extended and z/f/x/y form; non-trivial = distinct lengths",
 		"C10": "lists of 129 .. 65 537 distinct IDs (thorough: to 262 145) at zoom 20: z/f/x/y -> extended -> z/f/x/y is the identity entry by entry, same length; non-trivial = distinct lengths",
 	}[prop]
@@ -115,17 +115,55 @@ func longIDListPhase(prop, tier string) engine.Phase {
 			switch prop {
 			case "C03":
 				ids := append([]string{vox[n-1].Ext()}, ref.Exts(vox)...)
+				// results the caller keeps: each is judged when returned and again after later calls
+				type heldResult struct {
+					what string
+					got  []string
+					want ref.Set
+				}
+				var held []heldResult
+				judge := func(h heldResult, sig string) bool {
+					set, bad, dup := voxelsOf(h.got)
+					if bad != "" || dup != "" || !sameVoxSet(set, h.want) {
+						d["call"], d["got_n"], d["want_n"], d["dup"], d["bad"] = h.what, len(h.got), len(h.want), dup, bad
+						c.Violation(sig, d)
+						return false
+					}
+					return true
+				}
 				for _, t := range []int64{20, 19} {
 					got, err := integrate.ChangeExtendedSpatialIdsZoom(ids, t, t)
 					if err != nil {
 						c.Violation("C03:long-lists:error-on-valid-input", d)
 						return
 					}
-					want := ref.ChangeZoomSet(vox, t, t)
-					set, bad, dup := voxelsOf(got)
-					if bad != "" || dup != "" || !sameVoxSet(set, want) {
-						d["target"], d["got_n"], d["want_n"], d["dup"], d["bad"] = t, len(got), len(want), dup, bad
-						c.Violation("C03:long-lists:result-differs-from-model", d)
+					h := heldResult{fmt.Sprintf("list of %d -> %d/%d", len(ids), t, t), got, ref.ChangeZoomSet(vox, t, t)}
+					if !judge(h, "C03:long-lists:result-differs-from-model") {
+						return
+					}
+					held = append(held, h)
+				}
+				// one voxel raised to 4^6 * 2^2 = 16 384 descendants (a long RESULT from a short list)
+				one := vox[0]
+				up, err := integrate.ChangeExtendedSpatialIdsZoom([]string{one.Ext()}, 26, 22)
+				if err != nil {
+					c.Violation("C03:long-lists:error-on-valid-input", d)
+					return
+				}
+				hu := heldResult{"one voxel -> 26/22", up, ref.ChangeZoomSet([]ref.Vox{one}, 26, 22)}
+				if !judge(hu, "C03:long-lists:result-differs-from-model") {
+					return
+				}
+				held = append(held, hu)
+				// two small later calls, then every earlier result must still be what it was
+				for _, id := range []string{vox[0].Ext(), vox[n-1].Ext()} {
+					if _, err := integrate.ChangeExtendedSpatialIdsZoom([]string{id}, 21, 21); err != nil {
+						c.Violation("C03:long-lists:error-on-valid-input", d)
+						return
+					}
+				}
+				for _, h := range held {
+					if !judge(h, "C03:long-lists:earlier-result-changed-by-a-later-call") {
 						return
 					}
 				}
